@@ -72,10 +72,14 @@ def check_case(term, doc, ls, width, frac, sname, layout, part, fresh=False):
                                        'layout_set_size': len(ls),
                                        'members': [docalg.tokens_text(k) for k in list(ls)[:6]]})
     try:
+        # a render with other line-break strings first: the default render afterwards must not remember them
+        other = default_render_to_str(list(sdocs), newline='\r\n', separator='\t')
         rendered = default_render_to_str(sdocs)
     except Exception as e:     # noqa
         part.violation('render-exception', case, '%s: %s' % (type(e).__name__, e))
         return tokens
+    if other.count('\r\n') != sum(1 for t in tokens if isinstance(t, int)) or '\n' in other.replace('\r\n', ''):
+        part.violation('renderer-ignores-newline-argument', case, {'rendered': other})
     if not renderer_ok(tokens, rendered):
         part.violation('renderer-changes-text', case, {'raw': docalg.tokens_text(tokens), 'rendered': rendered})
     return tokens
@@ -132,8 +136,8 @@ def plan(tier, seed):
         desc.append('full algebra size %d: %d terms' % (n, total))
     if tier == 'quick':
         # seed-rotated contiguous slice of the next size (a subset of the thorough tier)
-        total = 2392064
         full.terms(5)
+        total = sum(1 for _ in full.gen(6))
         width = 3000
         nslices = total // width
         lo = (seed % nslices) * width
